@@ -170,6 +170,16 @@ type AdminStep struct {
 	Timeout Dur // Shutdown context deadline (0 = none)
 }
 
+// AutoYieldCfg says at which of the yield points that verifctl inserts into a scratch copy
+// of the library (instr tier) a run parks: at the one named Site, or at every site whose
+// hash, mixed with Salt, is 0 modulo Mod.
+type AutoYieldCfg struct {
+	Site string
+	Salt uint64
+	Mod  int
+	Park Dur
+}
+
 // Scenario is everything that defines one run. It is drawn completely before
 // the bubble is entered.
 type Scenario struct {
@@ -184,13 +194,14 @@ type Scenario struct {
 	AcceptTailTemp   int
 	AcceptPermanent  bool
 	ListenerCloseErr bool
-	NoWaitServe      bool        // start the actors without waiting for Serve to register its listener
-	YieldPark        Dur         // park this long at the VerifYield points of Server.Close/Shutdown (0 = hook off)
-	YieldPoints      []string    // the VerifYield points that park in this run (nil with YieldPark > 0: the two server points)
-	ServeDelay       Dur         // Serve is called this long after the start (with NoWaitServe: a Close may come first)
-	LogPark          Dur         // Server.ErrorLog is slow: every Printf parks this long (0 = instant)
-	X                interface{} // property-specific expectation data
-	Strata           []string    // labels for evidence (which strata this run belongs to)
+	NoWaitServe      bool          // start the actors without waiting for Serve to register its listener
+	YieldPark        Dur           // park this long at the VerifYield points of Server.Close/Shutdown (0 = hook off)
+	YieldPoints      []string      // the VerifYield points that park in this run (nil with YieldPark > 0: the two server points)
+	ServeDelay       Dur           // Serve is called this long after the start (with NoWaitServe: a Close may come first)
+	LogPark          Dur           // Server.ErrorLog is slow: every Printf parks this long (0 = instant)
+	AutoYield        *AutoYieldCfg // instr tier: parks at yield points inserted by program (nil = none)
+	X                interface{}   // property-specific expectation data
+	Strata           []string      // labels for evidence (which strata this run belongs to)
 }
 
 func (sc *Scenario) Describe() []string {
@@ -221,6 +232,9 @@ func (sc *Scenario) Describe() []string {
 				out = append(out, fmt.Sprintf("  op%d: %s", j, op))
 			}
 		}
+	}
+	if a := sc.AutoYield; a != nil {
+		out = append(out, fmt.Sprintf("inserted yield points: site=%q salt=%d mod=%d park=%v", a.Site, a.Salt, a.Mod, a.Park))
 	}
 	for _, a := range sc.Admin {
 		out = append(out, fmt.Sprintf("admin: at=%v kind=%d timeout=%v", a.At, a.Kind, a.Timeout))
